@@ -142,6 +142,23 @@ def add_samples(W, cfg):
     ns_pre = [x for x in S.shell_n_sample]
     n_like_pre = S.n_like
     counter = install_counters(S, cfg.get('unroll', 2))
+    if cfg.get('fail_call') is not None:
+        # the likelihood raises inside this batch and the exception reaches
+        # the caller: the stored columns must still belong together (the
+        # sampler object can be used further, e.g. posterior())
+        like.fail_at = len(like.calls) + cfg['fail_call']
+        try:
+            S.add_samples(shell)
+        except st.InjectedFault:
+            pass
+        except Exception as e:
+            W.fail('C03:failed-batch-propagates', '%s: %s' % (
+                type(e).__name__, e))
+            return
+        like.fail_at = None
+        if st.check_alignment(W, S, tag='-after-failed-batch'):
+            st.check_c03_rows(W, S, like, tag='-after-failed-batch')
+        return
     ok, ret = call(W, props[0] + ':add_samples-no-raise',
                    lambda: S.add_samples(shell))
     if not ok:
